@@ -529,6 +529,16 @@ func (e *MetaCDC) Create(req *request.CreateRequest) (resp *request.CreateRespon
 		return nil
 	}
 
+	// decode the rpc position before anything is persisted, a request with an undecodable
+	// rpc position should not leave collection positions behind
+	var rpcDecodePosition *msgstream.MsgPosition
+	if req.RPCChannelInfo.Position != "" {
+		rpcDecodePosition, err = util.Base64DecodeMsgPosition(req.RPCChannelInfo.Position)
+		if err != nil {
+			return nil, servererror.NewServerError(errors.WithMessage(err, "fail to decode the rpc position data"))
+		}
+	}
+
 	if err := handleCollectionPositions(req.CollectionInfos); err != nil {
 		return nil, err
 	}
@@ -542,10 +552,7 @@ func (e *MetaCDC) Create(req *request.CreateRequest) (resp *request.CreateRespon
 	// TODO fubang check the same collection when db is different
 
 	if req.RPCChannelInfo.Position != "" {
-		decodePosition, err := util.Base64DecodeMsgPosition(req.RPCChannelInfo.Position)
-		if err != nil {
-			return nil, servererror.NewServerError(errors.WithMessage(err, "fail to decode the rpc position data"))
-		}
+		decodePosition := rpcDecodePosition
 		rpcChannel := e.getRPCChannelName(req.RPCChannelInfo)
 
 		metaPosition := &meta.TaskCollectionPosition{
